@@ -133,7 +133,7 @@ type ContractFile struct {
 
 var clauseKeywords = map[string]bool{
 	"requires": true, "ensures": true, "trusts": true, "let": true, "postlet": true, "modifies": true, "loop": true, "dyn": true,
-	"props": true, "flags": true, "cover": true, "nullable": true,
+	"props": true, "flags": true, "cover": true, "nullable": true, "alias": true, "mutates": true,
 	"assume": true, "show": true, "call": true, "havoc": true, "fresh": true, "set": true,
 }
 
@@ -446,6 +446,19 @@ func parseFuncClause(fc *FuncContract, kw, rest string) error {
 		for _, n := range splitNames(rest) {
 			fc.Nullable[n] = true
 		}
+	case "mutates":
+		// mutates p, q: the function writes through these pointer parameters (see callContract / VerifyFunc)
+		for _, n := range splitNames(rest) {
+			fc.Dyn["mutates:"+n] = "1"
+		}
+	case "alias":
+		// alias <result> = <param> [when <cond>]: on return the pointer result IS the pointer parameter (same object).
+		// Checked in the function (pointer identity); at call sites the result is bound to the argument itself.
+		parts := strings.SplitN(rest, "=", 2)
+		if len(parts) != 2 {
+			return fmt.Errorf("alias result = param")
+		}
+		fc.Dyn["alias:"+strings.TrimSpace(parts[0])] = strings.TrimSpace(parts[1])
 	case "props":
 		fc.Props = append(fc.Props, strings.Fields(strings.ReplaceAll(rest, ",", " "))...)
 	case "flags":
